@@ -211,6 +211,9 @@ Definition coalesce_replace (v : val (T:=Qc)) (_ : Qc) : res (val (T:=Qc)) := Ok
 Definition coalesce_add (v : val (T:=Qc)) (o : Qc) : res (val (T:=Qc)) := vadd v (VOut o).
 
 Definition results_eqb (a b : list (list Qc)) : bool := list_eqb (list_eqb Veqb) a b.
+(* exception classes of an `except` clause in a callback *)
+Definition catch_value_error (e : exn) : bool := match e with ValueError => true | _ => false end.
+Definition catch_exception (e : exn) : bool := true.
 Definition mechT := list (list (source (T:=Qc)) * hist Qc * list (list (list Qc) * ret (T:=Qc) (St:=nat))).
 Definition mech_srcs (m : mechT) (st : nat) : list (source (T:=Qc)) :=
   match nth_error m st with Some (s, _, _) => s | None => [] end.
